@@ -18,6 +18,9 @@ package main
 //                         this dial's source connection ID
 //   uspecdial/raw-verbatim every raw/fake parameter of the spec is on the wire with its own bytes
 //   uspecdial/key-share   key_share entries on the wire = the spec's (groups; bytes where given)
+//   uspecdial/ids, uspecdial/ids-mutates-spec   TransportParameterIDs() between edits and dials:
+//                         returns sort(canon(spec as written minus suppressed)); leaves the spec's
+//                         list alone (so the next dial is not affected by the query)
 //   uspecdial/spec-untouched  the spec's own list (objects, order) is what the caller wrote,
 //                         after every dial
 //   uspecdial/draws       the recorded draws reproduce the wire order exactly (Fisher-Yates
@@ -30,6 +33,7 @@ import (
 	"bufio"
 	"fmt"
 	mrand "math/rand"
+	"sort"
 	"strings"
 
 	quic "github.com/refraction-networking/uquic"
@@ -121,7 +125,7 @@ func uspecdialBuild(r *u.Rng, name string) (*quic.QUICSpec, error) {
 	return sp, nil
 }
 
-func uspecdialSequence(w *bufio.Writer, rep *fpReporter, r *u.Rng, name string, dials int) {
+func uspecdialSequence(w *bufio.Writer, rep *fpReporter, r *u.Rng, name string, dials int, forceIDs bool) {
 	sp, err := uspecdialBuild(r, name)
 	if err != nil {
 		rep.fail("uspecdial/capture", err.Error(), name)
@@ -169,6 +173,52 @@ func uspecdialSequence(w *bufio.Writer, rep *fpReporter, r *u.Rng, name string, 
 		}
 		sp.SuppressTransportParameters = sup
 		sp.RandomizeTransportParameters = rnd
+		// The caller asks the spec which ids it will send -- QUICSpec.TransportParameterIDs(), a
+		// query -- and may then change the suppression list again before dialling. The first
+		// dial of every sequence does so with a non-empty list that is cleared afterwards
+		// (the shape of audit problem P3); later dials at random.
+		if (d == 0 && forceIDs) || (d > 0 && r.Chance(1, 3)) {
+			if d == 0 {
+				sup = nil
+				for _, p := range decl {
+					if p.ID != 0xf && !fpIsGrease(p.ID) && len(sup) < 2 {
+						sup = append(sup, p.ID)
+					}
+				}
+				sp.SuppressTransportParameters = sup
+			}
+			ids := sp.TransportParameterIDs()
+			var want []uint64
+			for _, p := range decl {
+				if uKeep(p.ID, sup) {
+					id := p.ID
+					if fpIsGrease(id) {
+						id = 27
+					}
+					want = append(want, id)
+				}
+			}
+			sort.Slice(want, func(i, j int) bool { return want[i] < want[j] })
+			icfg := fmt.Sprintf("quicid=%s before dial#%d suppress=%v spec=%s", name, d, sup, fpParamsString(decl))
+			if !fpEqU64(ids, want) {
+				rep.fail("uspecdial/ids", fmt.Sprintf("TransportParameterIDs() = %v, the spec as written minus the suppressed ids gives %v", ids, want), icfg)
+			}
+			if !uSamePtrs(ext.TransportParameters, written) {
+				rep.fail("uspecdial/ids-mutates-spec", "QUICSpec.TransportParameterIDs() changed the spec's own parameter list (a later dial under another suppression list sends the shortened list)", icfg+" now="+fpParamsString(fpSnapshot(ext)))
+			}
+			steps = append(steps, u.App("DIds", uZUList(sup), u.B(rnd), uZUList(ids)))
+			if d == 0 || r.Bool() { // ... and changes its mind
+				sup = nil
+				if d > 0 && r.Bool() {
+					for _, p := range decl {
+						if p.ID != 0xf && r.Chance(1, 6) {
+							sup = append(sup, p.ID)
+						}
+					}
+				}
+				sp.SuppressTransportParameters = sup
+			}
+		}
 		var kept []fpParam
 		for _, p := range decl {
 			if uKeep(p.ID, sup) {
@@ -282,7 +332,7 @@ func runUSpecDial(w *bufio.Writer, seed uint64, n int, _ []string) {
 	for i := 0; i < n; i++ {
 		name := parrotNames[i%len(parrotNames)]
 		dials := r.Range(2, 5)
-		uspecdialSequence(w, rep, r.Fork(), name, dials)
+		uspecdialSequence(w, rep, r.Fork(), name, dials, i%2 == 0)
 		dist[fmt.Sprintf("dials=%d", dials)]++
 		dist["quicid="+name]++
 	}
